@@ -453,10 +453,10 @@ theorem head_last_all_eq (ks : List κ) (hc : Contig ks) (hl : ks.head? = ks.get
 
 /-- each chunk's groups are its runs: the change-point slicing in general, the first-key = last-key
 shortcut because contiguous keys with equal ends are all equal -/
-theorem groupbyChunk_eq_runs [Inhabited α] (fast : Bool) (key : α → κ) (c : List α) (hc : c ≠ [])
+theorem groupbyChunk_eq_runs [Inhabited α] (fast : Bool) (key : α → κ) (c : List α)
     (hcon : Contig (c.map key)) : groupbyChunk fast key c = some (runs key c) := by
   cases c with
-  | nil => exact absurd rfl hc
+  | nil => rfl
   | cons a t =>
     simp only [groupbyChunk]
     split
@@ -696,22 +696,22 @@ shortcut) and joining equal consecutive keys gives exactly the runs of the whole
 theorem groupby_chunks [Inhabited α] (fast : Bool) (key : α → κ) (data : List α) (cs : List (List α))
     (hcs : IsChunking data cs) (hcon : Contig (data.map key)) :
     groupbyStream fast key cs = some (runs key data) := by
-  obtain ⟨hflat, hne⟩ := hcs
+  have hflat : cs.flatten = data := hcs
   subst hflat
   have h1 : omap (groupbyChunk fast key) cs = some (cs.map (runs key)) :=
-    omap_some_map _ _ _ (fun c hc => groupbyChunk_eq_runs fast key c (hne c hc) (contig_chunk key cs hcon c hc))
+    omap_some_map _ _ _ (fun c hc => groupbyChunk_eq_runs fast key c (contig_chunk key cs hcon c hc))
   simp only [groupbyStream, h1, join_runs]
 
 /-- without the shortcut (string / integer key columns) no hypothesis on the keys is needed -/
 theorem groupby_chunks_any_keys [Inhabited α] (key : α → κ) (data : List α) (cs : List (List α))
     (hcs : IsChunking data cs) : groupbyStream false key cs = some (runs key data) := by
-  obtain ⟨hflat, hne⟩ := hcs
+  have hflat : cs.flatten = data := hcs
   subst hflat
   have h1 : omap (groupbyChunk false key) cs = some (cs.map (runs key)) := by
     apply omap_some_map
     intro c hc
     cases c with
-    | nil => exact absurd rfl (hne [] hc)
+    | nil => rfl
     | cons a t =>
       simp only [groupbyChunk, Bool.false_and, Bool.false_eq_true, ↓reduceIte]
       rw [sliceGroups_eq_runs key (a :: t) (by simp)]
@@ -1739,7 +1739,7 @@ example : Aligned exG [2, 1] := by
 example : (computeGraph exG 3 5).toOption.map (·.1) = some [11, 44, 99] ∧ evalMem exG 4 3 = some [11, 44, 99] := by decide
 
 /-! ## non-vacuity of the hypotheses -/
-example : IsChunking [1, 2, 3] [[1], [2, 3]] := ⟨rfl, by intro c hc; simp at hc; rcases hc with rfl | rfl <;> simp⟩
+example : IsChunking [1, 2, 3] [[1], [], [2, 3]] := rfl
 example : Contig [1, 1, 2, 5, 5] := sorted_contig _ (by decide)
 example : groupbyStream true (fun x : Nat × Nat => x.1) [[(1, 0), (1, 1)], [(1, 2), (2, 3)], [(3, 4)]]
     = some [(1, [(1, 0), (1, 1), (1, 2)]), (2, [(2, 3)]), (3, [(3, 4)])] := by decide
@@ -1949,7 +1949,7 @@ theorem per_chromosome (sizes : List Nat) (ivs : List C10.Iv) (cs : List (List C
     rw [hpf, sum_map_sum]
 
 example : IsChunking ([{ c := 0, s := 3, e := 5 }, { c := 1, s := 0, e := 2 }] : List C10.Iv)
-    [[{ c := 0, s := 3, e := 5 }], [{ c := 1, s := 0, e := 2 }]] := ⟨rfl, by simp⟩
+    [[{ c := 0, s := 3, e := 5 }], [{ c := 1, s := 0, e := 2 }]] := rfl
 example : streamPileup [5, 5] [[{ c := 0, s := 3, e := 5 }], [{ c := 1, s := 0, e := 2 }]]
     = some [0, 0, 0, 1, 1, 1, 1, 0, 0, 0] := by decide
 example : chromBuffers 3 [[{ c := 0, s := 3, e := 5 }], [{ c := 2, s := 0, e := 2 }]]
